@@ -16,6 +16,14 @@ class DontCare(Exception):
     pass
 
 
+class TypeErr(Exception):
+    """the datatype must raise TypeError (timedelta: unknown unit letter)"""
+
+
+class AnyError(Exception):
+    """several faults of different kinds: ValueError or TypeError, the documentation does not rank them"""
+
+
 # ------------------------------------------------------------------ character classes
 def _alnum(ch):
     return is_ascii_alpha(ch) or is_ascii_digit(ch)
@@ -397,6 +405,185 @@ def ipaddr_or_hostname(s):
     raise Bad()
 
 
+# ------------------------------------------------------------------ floats (exact rationals)
+def _tokens(s):
+    """classify the characters of a float literal: list of ('d', value) | ('_',) | ('.',) | ('e',) |
+    ('s', negative?) | ('x',)"""
+    out = []
+    for ch in s:
+        if is_dec_digit(ch):
+            out.append(('d', dec_value(ch)))
+        elif char_is(ch, '_'):
+            out.append(('_',))
+        elif char_is(ch, '.'):
+            out.append(('.',))
+        elif char_is(ch, 'e', 'E'):
+            out.append(('e',))
+        elif char_is(ch, '+', '-'):
+            out.append(('s', bool(char_is(ch, '-'))))
+        else:
+            out.append(('x',))
+    return out
+
+
+def _word(s, w):
+    if len(s) != len(w):
+        return False
+    for ch, c in zip(s, w):
+        if not char_is(ch, c, c.upper()):
+            return False
+    return True
+
+
+def parse_float(s):
+    """Python's float(str) as exact arithmetic -> ('fin', Fraction | z3 Real) | ('inf',) | ('ninf',) |
+    ('nan',); Bad when float() must raise ValueError.  Grammar (language reference, "Floating point
+    literals" + float()): [ws] [sign] (digitpart ['.' [digitpart]] | '.' digitpart) [(e|E) [sign] digitpart] [ws]
+    | [sign] ('inf' | 'infinity' | 'nan'), digitpart = digit (['_'] digit)*"""
+    import fractions
+    from .. import core
+    n = len(s)
+    a, b = 0, n
+    while a < b and is_int_space(s[a]):
+        a += 1
+    while b > a and is_int_space(s[b - 1]):
+        b -= 1
+    s = s[a:b]
+    if len(s) == 0:
+        raise Bad()
+    neg = False
+    if char_is(s[0], '+', '-'):
+        neg = bool(char_is(s[0], '-'))
+        s = s[1:]
+    if _word(s, 'inf') or _word(s, 'infinity'):
+        return ('ninf',) if neg else ('inf',)
+    if _word(s, 'nan'):
+        return ('nan',)
+    toks = _tokens(s)
+    # split at the exponent marker and at the point
+    epos = [i for i, t in enumerate(toks) if t[0] == 'e']
+    if len(epos) > 1:
+        raise Bad()
+    mant = toks[:epos[0]] if epos else toks
+    expo = toks[epos[0] + 1:] if epos else None
+    ppos = [i for i, t in enumerate(mant) if t[0] == '.']
+    if len(ppos) > 1:
+        raise Bad()
+    ipart = mant[:ppos[0]] if ppos else mant
+    fpart = mant[ppos[0] + 1:] if ppos else []
+
+    def digitpart(ts, may_be_empty):
+        """-> list of digit values; underscores only between two digits"""
+        if not ts:
+            if may_be_empty:
+                return []
+            raise Bad()
+        vals = []
+        for i, t in enumerate(ts):
+            if t[0] == 'd':
+                vals.append(t[1])
+            elif t[0] == '_' and 0 < i < len(ts) - 1 and ts[i - 1][0] == 'd' and ts[i + 1][0] == 'd':
+                pass
+            else:
+                raise Bad()
+        return vals
+    iv = digitpart(ipart, True)
+    fv = digitpart(fpart, True)
+    if not iv and not fv:
+        raise Bad()
+    ex = 0
+    if expo is not None:
+        eneg = False
+        if expo and expo[0][0] == 's':
+            eneg = expo[0][1]
+            expo = expo[1:]
+        ev = digitpart(expo, False)
+        for dgt in ev:
+            k = 0
+            while not (dgt == k):        # the exponent is made concrete (forks in symbolic mode)
+                k += 1
+            ex = ex * 10 + k
+        if eneg:
+            ex = -ex
+    total = 0
+    for dgt in iv + fv:
+        total = total * 10 + dgt
+    scale = fractions.Fraction(10) ** (ex - len(fv))
+    if isinstance(total, int):
+        val = total * scale
+        over = val > 17976931348623157 * 10 ** 292
+    else:
+        val = core.real_term(total.e) * core.real_term(scale)
+        over = core.mk(val > core.real_term(17976931348623157 * 10 ** 292))
+    if over:
+        return ('ninf',) if neg else ('inf',)
+    return ('fin', -val if neg else val)
+
+
+def float_(s):
+    r = parse_float(s)
+    if r[0] != 'fin':
+        return ('nonfinite', r[0])
+    from .. import core
+    return ('fin', core.Approx(r[1], 0, '1/1000000000000'))
+
+
+_UNITS = (('w', 604800), ('d', 86400), ('h', 3600), ('m', 60), ('s', 1))
+
+
+def timedelta(s):
+    """blank-separated parts '<float><unit letter>'; a unit given twice: the last one counts.
+    -> Approx(total seconds).  Statement: every string maps to a value or ValueError, an unknown unit
+    letter is a TypeError; no other exception (a non-finite or out-of-range amount is a ValueError)."""
+    import fractions
+    from .. import core
+    parts = string_list(s)
+    amounts = {}
+    value_fault = unit_fault = False
+    for part in parts:
+        n = len(part)
+        amount = None
+        try:
+            amount = parse_float(part[:n - 1])
+        except Bad:
+            value_fault = True
+        unit = None
+        for letter, secs in _UNITS:
+            if char_is(part[n - 1], letter):
+                unit = letter
+        if unit is None:
+            unit_fault = True
+        elif amount is not None:
+            amounts[unit] = amount
+    if value_fault and unit_fault:
+        raise AnyError()       # which of the two is reported first is not documented
+    if value_fault:
+        raise Bad()
+    if unit_fault:
+        raise TypeErr()
+    total = 0
+    symbolic = False
+    for letter, secs in _UNITS:
+        if letter in amounts:
+            am = amounts[letter]
+            if am[0] != 'fin':
+                raise Bad()
+            if isinstance(am[1], fractions.Fraction) or isinstance(am[1], int):
+                total = total + am[1] * secs if not symbolic else total + core.real_term(am[1] * secs)
+            else:
+                if not symbolic:
+                    total = core.real_term(total)
+                    symbolic = True
+                total = total + am[1] * core.real_term(secs)
+    lim = 999999999 * 86400
+    if symbolic:
+        if core.mk(core.z3.Or(total < core.real_term(-lim), total >= core.real_term(lim + 86400))):
+            raise Bad()
+    elif total < -lim or total >= lim + 86400:
+        raise Bad()
+    return core.Approx(total, '1/1000000', '1/1000000000000')
+
+
 # ------------------------------------------------------------------ dispatch
 DEFAULTS = {'inet-address': '', 'inet-binding-address': '', 'inet-connection-address': '127.0.0.1',
             'socket-address': '', 'socket-binding-address': '', 'socket-connection-address': '127.0.0.1'}
@@ -407,6 +594,7 @@ TABLE = {
     'boolean': boolean, 'byte-size': byte_size, 'time-interval': time_interval,
     'string-list': string_list, 'string': lambda s: s, 'null': lambda s: s,
     'ipaddr-or-hostname': ipaddr_or_hostname,
+    'float': float_, 'timedelta': timedelta,
 }
 for _n in ('inet-address', 'inet-binding-address', 'inet-connection-address'):
     TABLE[_n] = (lambda d: lambda s: inet_address(s, d))(DEFAULTS[_n])
